@@ -131,7 +131,65 @@ theorem tryAttestation_eq (s : Oracle.St) (a : Oracle.Att) (power : Nat → Nat)
         subst hs
         simp [hr, toTryRes]
 
+theorem translated_Attest : translated "x/skyway/keeper.Keeper.Attest" = true := by decide
+
+/-- C02 `Attest`: for a bonded validator whose claim message passed the stateless checks, the Go function accepts the
+    vote exactly when the model's `vote` does (the claim is the validator's NEXT nonce and its remote height equals the
+    stored claim's), and the vote list it stores is the model's `addVote` — the validator is appended unless it is
+    already there, however often and in whatever order claims, nonce resets and catch-ups happen -/
+theorem attest_eq (s : Oracle.St) (v n h eth : Nat) (applicable : Bool) (amount compass : Nat)
+    (hn : n < 2 ^ 64) (hv : Oracle.lastNonceOf s v + 1 < 2 ^ 64) (he : eth < 2 ^ 64)
+    (hs : ∀ a ∈ s.atts, a.eth < 2 ^ 64) :
+    Translated.attest true v (UInt64.ofNat (Oracle.lastNonceOf s v)) (UInt64.ofNat n) (UInt64.ofNat eth)
+        (Oracle.findAtt s.atts n h).isSome (((Oracle.findAtt s.atts n h).map (·.votes)).getD [])
+        (UInt64.ofNat (((Oracle.findAtt s.atts n h).map (·.eth)).getD 0))
+      = if (Oracle.vote s v n h eth applicable amount compass).2 = .ok
+        then .voted (Oracle.addVote (Oracle.attFor s n h eth applicable amount compass).votes v)
+        else if n ≠ Oracle.lastNonceOf s v + 1 then .rejected 2 else .rejected 5 := by
+  have hne : (UInt64.ofNat n != UInt64.ofNat (Oracle.lastNonceOf s v) + 1) = decide (n ≠ Oracle.lastNonceOf s v + 1) := by
+    have h1 : (UInt64.ofNat (Oracle.lastNonceOf s v) + 1).toNat = Oracle.lastNonceOf s v + 1 := by
+      rw [UInt64.toNat_add]; simp [UInt64.toNat_ofNat']; omega
+    have h2 : (UInt64.ofNat n).toNat = n := by simp [UInt64.toNat_ofNat', Nat.mod_eq_of_lt hn]
+    by_cases hh : n = Oracle.lastNonceOf s v + 1
+    · have : UInt64.ofNat n = UInt64.ofNat (Oracle.lastNonceOf s v) + 1 := UInt64.toNat_inj.mp (by rw [h1, h2, hh])
+      simp [hh, this]
+    · have : UInt64.ofNat n ≠ UInt64.ofNat (Oracle.lastNonceOf s v) + 1 := by
+        intro hx; apply hh; rw [← h2, hx, h1]
+      simp [hh, this]
+  unfold Translated.attest Oracle.vote
+  simp only [Id.run, hne]
+  by_cases c1 : n ≠ Oracle.lastNonceOf s v + 1
+  · simp [c1]
+  · simp only [c1, decide_false, Bool.false_eq_true, ↓reduceIte, ne_eq, not_false_eq_true]
+    cases hf : Oracle.findAtt s.atts n h with
+    | none =>
+      simp [Oracle.attFor, hf, Oracle.addVote, id_pure]
+    | some a =>
+      have ha : a.eth < 2 ^ 64 := hs a (by
+        unfold Oracle.findAtt at hf
+        exact List.mem_of_find?_eq_some hf)
+      have heq : (UInt64.ofNat a.eth == UInt64.ofNat eth) = decide (a.eth = eth) := by
+        by_cases hh : a.eth = eth
+        · simp [hh]
+        · have : UInt64.ofNat a.eth ≠ UInt64.ofNat eth := by
+            intro hx
+            apply hh
+            have := congrArg UInt64.toNat hx
+            simpa [UInt64.toNat_ofNat', Nat.mod_eq_of_lt ha, Nat.mod_eq_of_lt he] using this
+          simp [hh, this]
+      simp only [Oracle.attFor, hf, Option.isSome_some, Option.map_some, Option.getD_some, Bool.not_true,
+        Bool.false_eq_true, ↓reduceIte, heq]
+      by_cases c2 : a.eth = eth
+      · by_cases c3 : v ∈ a.votes
+        · simp [c2, c3, Oracle.addVote, id_pure]
+        · simp [c2, c3, Oracle.addVote, id_pure]
+      · simp [c2, id_pure]
+
 /-! ### non-vacuity -/
+example : Translated.attest true 7 4 5 100 true [3, 7] 100 = .voted [3, 7] := by decide           -- a second vote is not appended
+example : Translated.attest true 8 4 5 100 true [3, 7] 100 = .voted [3, 7, 8] := by decide
+example : Translated.attest true 8 4 6 100 true [3, 7] 100 = .rejected 2 := by decide              -- not the validator's next nonce
+example : Translated.attest true 8 4 5 101 true [3, 7] 100 = .rejected 5 := by decide              -- another remote height
 example : Translated.tryAttestation false 100 [1, 2] (fun v => if v = 1 then 30 else 37) 4 5 false false = .observed := by decide
 example : Translated.tryAttestation false 100 [1, 2] (fun v => if v = 1 then 30 else 36) 4 5 false false = .pending := by decide
 example : Translated.tryAttestation false 100 [1, 2] (fun v => if v = 1 then 30 else 37) 4 6 false false = .error 3 := by decide
